@@ -17,7 +17,7 @@ def make_case(rng, i):
     return ty
 
 
-def run_case(ctx, ty, rng, reqs, pend):
+def run_case(ctx, i, ty, rng, reqs, pend):
     try:
         built = model.Built(ty)
     except Exception as e:   # the generator produced an unbuildable class: a harness bug, not a finding
@@ -26,6 +26,8 @@ def run_case(ctx, ty, rng, reqs, pend):
         return
     try:
         x = gen.gen_instance(rng, ty, built)
+        if not ctx.begin_case(i):
+            return
         before = copy.deepcopy(x)
         case = {'ty': ty, 'inst': repr(x)[:400]}
         # ---- implementation
@@ -83,10 +85,10 @@ def run(ctx: C.Ctx):
     n = ctx.quick(1500, 20000)
     reqs, pend = [], []
     for i in range(n):
-        if ctx.deadline and ctx.time_left() < 0:
+        if ctx.done(i):
             break
         ty = make_case(rng, i)
-        run_case(ctx, ty, rng, reqs, pend)
+        run_case(ctx, i, ty, rng, reqs, pend)
     if ctx.model_available:
         outs = ctx.driver.run(reqs)
         for (case, impl), o in zip(pend, outs):
@@ -106,7 +108,3 @@ def run(ctx: C.Ctx):
             ctx.agree('dump', case, impl, m)
 
 
-def replay(obj):
-    import random
-    C.setup_repo_path()
-    return dict(violated=None, note='re-run ./check C03 with the same seed to reproduce; case in file', case=obj.get('case'))
